@@ -6,10 +6,13 @@ package main
 //   STAT\t<name>\t<json>            coverage facts for the evidence file
 
 import (
+	"bufio"
+	"bytes"
 	"encoding/json"
 	"errors"
 	"fmt"
 	"io"
+	"testing/iotest"
 	"os"
 	"os/exec"
 	"sort"
@@ -469,6 +472,10 @@ func readOnceRaw(r *scriptReader) (o readOutcome) {
 	p, err := mq.ReadPacket(r)
 	o.p, o.e = p, err
 	switch {
+	case typedNil(p):
+		o.both = err != nil
+		o.none = err == nil
+		o.p = nil
 	case !isNilPacket(p) && err == nil:
 		o.kind = kindOf(p)
 		o.snap = snapshot(p)
@@ -482,6 +489,103 @@ func readOnceRaw(r *scriptReader) (o readOutcome) {
 		o.none = true
 	}
 	return
+}
+
+// ---- readers of the standard library: the same bytes through the reader types a
+// program is likely to hand to ReadPacket (a decoder may special-case a dynamic type)
+type namedReader struct {
+	name string
+	r    io.Reader
+}
+
+type onlyReader struct{ r io.Reader } // hides every method but Read
+
+func (o onlyReader) Read(p []byte) (int, error) { return o.r.Read(p) }
+
+func nativeReaders(b []byte) []namedReader {
+	c := func() []byte { return append([]byte{}, b...) }
+	return []namedReader{
+		{"bytes.Buffer", bytes.NewBuffer(c())},
+		{"bytes.Reader", bytes.NewReader(c())},
+		{"strings.Reader", strings.NewReader(string(b))},
+		{"bufio.Reader16", bufio.NewReaderSize(bytes.NewReader(c()), 16)},
+		{"bufio.Reader4096", bufio.NewReader(bytes.NewReader(c()))},
+		{"iotest.OneByte", iotest.OneByteReader(bytes.NewReader(c()))},
+		{"iotest.Half", iotest.HalfReader(bytes.NewReader(c()))},
+		{"iotest.DataErr", iotest.DataErrReader(bytes.NewReader(c()))},
+		{"io.MultiReader", io.MultiReader(bytes.NewReader(c()[:len(b)/2]), bytes.NewBuffer(c()[len(b)/2:]))},
+		{"io.LimitReader", io.LimitReader(bytes.NewBuffer(append(c(), 0xff, 0xff, 0xff)), int64(len(b)))},
+		{"onlyRead(bytes.Buffer)", onlyReader{bytes.NewBuffer(c())}},
+	}
+}
+
+// readNative runs ReadPacket on an arbitrary reader under the watchdog.
+func readNative(rd io.Reader, in []byte) (o readOutcome) {
+	done := make(chan readOutcome, 1)
+	go func() {
+		var o readOutcome
+		o.kind = -1
+		defer func() {
+			if e := recover(); e != nil {
+				o.panic = true
+			}
+			done <- o
+		}()
+		p, err := mq.ReadPacket(rd)
+		o.p, o.e = p, err
+		switch {
+		case typedNil(p):
+			o.both = err != nil
+			o.none = err == nil
+			o.p = nil
+		case !isNilPacket(p) && err == nil:
+			o.kind = kindOf(p)
+			o.snap = snapshot(p)
+			o.enc = encS(p)
+			o.err = "nil"
+		case isNilPacket(p) && err != nil:
+			o.err = errClass(err)
+		case !isNilPacket(p) && err != nil:
+			o.both = true
+		default:
+			o.none = true
+		}
+	}()
+	select {
+	case o = <-done:
+		return o
+	case <-time.After(caseTimeout):
+		if curReport != nil {
+			curReport.fail("decode-timeout", "R 1 "+hexs(in), "ReadPacket did not return within the watchdog limit")
+			curReport.finish()
+		}
+		os.Exit(1)
+	}
+	return
+}
+
+// remaining reports how many bytes a standard reader still holds, -1 if unknown.
+func remaining(rd io.Reader) int {
+	switch x := rd.(type) {
+	case *bytes.Buffer:
+		return x.Len()
+	case *bytes.Reader:
+		return x.Len()
+	case *strings.Reader:
+		return x.Len()
+	}
+	return -1
+}
+
+// a PUBLISH frame whose body is larger than 64 KiB (and than any internal
+// buffer size a decoder might choose)
+func (g *G) bigPublish() []byte {
+	topic := g.bytesN(1 + g.pick(5))
+	payload := g.bytesN(65536 + g.pick(70000))
+	body := append([]byte{0, byte(len(topic))}, topic...)
+	body = append(body, 0) // no properties
+	body = append(body, payload...)
+	return append(append([]byte{0x30}, vbEnc(uint64(len(body)))...), body...)
 }
 
 func oneChunk(bs []byte) *scriptReader {
@@ -853,6 +957,57 @@ func checkSequenceBytes(r *report, g *G, all []byte, label string) {
 		}
 	}
 	r.eval(fmt.Sprintf("frames%d", nframes), nframes >= 2, sc)
+	// the same stream through the standard library's reader types, handed to
+	// ReadPacket as they are: same results, and exactly the frame consumed
+	type lenReader interface {
+		io.Reader
+		Len() int
+	}
+	mk := []func() (io.Reader, func() int){
+		func() (io.Reader, func() int) { b := bytes.NewBuffer(append([]byte{}, all...)); return b, b.Len },
+		func() (io.Reader, func() int) { b := bytes.NewReader(append([]byte{}, all...)); return b, b.Len },
+		func() (io.Reader, func() int) { b := strings.NewReader(string(all)); return b, b.Len },
+		func() (io.Reader, func() int) {
+			u := bytes.NewReader(append([]byte{}, all...))
+			b := bufio.NewReaderSize(u, 16)
+			return b, func() int { return u.Len() + b.Buffered() }
+		},
+		func() (io.Reader, func() int) {
+			u := bytes.NewReader(append([]byte{}, all...))
+			b := bufio.NewReader(u)
+			return b, func() int { return u.Len() + b.Buffered() }
+		},
+		func() (io.Reader, func() int) {
+			u := bytes.NewReader(append([]byte{}, all...))
+			return iotest.OneByteReader(u), u.Len
+		},
+	}
+	names := []string{"bytes.Buffer", "bytes.Reader", "strings.Reader", "bufio.Reader16", "bufio.Reader", "iotest.OneByte"}
+	for i, f := range mk {
+		nrd, left := f()
+		pos := 0
+		k := 0
+		for pos < len(all) {
+			rl, hl := splitFrame(all[pos:])
+			if hl == 0 || pos+hl+rl > len(all) {
+				break
+			}
+			frame := all[pos : pos+hl+rl]
+			o := readNative(nrd, all)
+			alone := readOnce(oneChunk(frame))
+			if o.verdict() != alone.verdict() {
+				r.fail("sequence-result", "R 8 "+hexs(all), fmt.Sprintf("through %s, frame %d (%s): in stream %s, alone %s", names[i], k, trunc(hexs(frame)), trunc(o.verdict()), trunc(alone.verdict())))
+				break
+			}
+			pos += len(frame)
+			if got := len(all) - left(); got != pos {
+				r.fail("sequence-consumed", "R 8 "+hexs(all), fmt.Sprintf("through %s, after frame %d: %d bytes consumed, want %d", names[i], k, got, pos))
+				break
+			}
+			k++
+		}
+		r.eval("sequence-reader-type", k >= 2, names[i])
+	}
 }
 
 // ---------------------------------------------------------------- C07
@@ -888,6 +1043,8 @@ func scriptOf(frame []byte, parts []int, zeroReads bool, eofStyle int) *scriptRe
 	return rd
 }
 
+var nativeRound int
+
 func oracleC07(r *report, g *G, n int, single string) {
 	checkFrame := func(f []byte, exhaustive bool) {
 		want := readOnce(oneChunk(f)).verdict()
@@ -908,6 +1065,12 @@ func oracleC07(r *report, g *G, n int, single string) {
 				}
 			})
 			r.evalN("exhaustive-compositions", cnt, cnt-4)
+		} else if len(f) > 60000 {
+			// a large frame: halves, a cut just past 64 KiB, and the reader types below
+			for _, k := range []int{len(f) / 2, 65536, 65537 + g.pick(len(f)-65537)} {
+				try(scriptOf(f, []int{k, len(f) - k}, g.chance(50), g.pick(2)), fmt.Sprintf("big split at %d", k))
+				r.eval("big-frame-split", true, "")
+			}
 		} else {
 			for j := 0; j < 8; j++ {
 				sc := g.fragment(f, g.pick(2))
@@ -920,6 +1083,18 @@ func oracleC07(r *report, g *G, n int, single string) {
 				parts[i] = 1
 			}
 			try(scriptOf(f, parts, true, 1), "bytewise")
+		}
+		// the same bytes through the standard library's reader types
+		nativeRound++
+		for _, nr := range nativeReaders(f) {
+			if nativeRound%3 != 0 && len(f) < 60000 {
+				break
+			}
+			got := readNative(nr.r, f)
+			if got.verdict() != want {
+				r.fail("reader-type", "R 1 "+hexs(f), fmt.Sprintf("frame %s through %s: %s, through a plain reader %s", trunc(hexs(f)), nr.name, got.verdict(), want))
+			}
+			r.eval("reader-type", true, nr.name)
 		}
 	}
 	if single != "" {
@@ -970,6 +1145,9 @@ func oracleC07(r *report, g *G, n int, single string) {
 		if len(f) > 0 && len(f) < 400 {
 			checkFrame(f, len(f) <= 10)
 		}
+	}
+	for i := 0; i < 2+n/200; i++ {
+		checkFrame(g.bigPublish(), false)
 	}
 	r.sample(map[string]string{"frame": "40020007", "schedules": "all 8 compositions x zero-length reads x EOF styles"})
 }
@@ -1022,6 +1200,29 @@ func oracleC08(r *report, g *G, n int, single string) {
 		if o.kind >= 0 && o.got != len(f) {
 			r.fail("fault-incomplete", "R 1 "+hexs(f), "packet returned after reading fewer bytes than the frame")
 		}
+		// the stream ends inside the frame, through the standard library's reader types
+		ncuts := cuts
+		if len(ncuts) > 8 {
+			ncuts = []int{0, 1, 2, len(f) / 2, len(f) - 2, len(f) - 1, g.pick(len(f)), g.pick(len(f))}
+		}
+		for _, k := range ncuts {
+			if k < 0 || k >= len(f) {
+				continue
+			}
+			for _, nr := range nativeReaders(f[:k]) {
+				o := readNative(nr.r, f[:k])
+				desc := fmt.Sprintf("frame=%s cut=%d reader=%s", trunc(hexs(f)), k, nr.name)
+				switch {
+				case o.panic || o.both || o.none:
+					r.fail("fault-"+o.verdict(), desc, o.verdict()+" through "+nr.name)
+				case o.kind >= 0:
+					r.fail("fault-papered-over", desc, "packet returned from a truncated frame through "+nr.name+": "+trunc(o.verdict()))
+				case k == 0 && !errors.Is(o.e, io.EOF):
+					r.fail("fault-eof-lost", desc, "errors.Is(err, io.EOF) is false: "+o.e.Error())
+				}
+				r.eval("reader-type-cut", k > 0, nr.name)
+			}
+		}
 	}
 	if single != "" {
 		if b, ok := caseBytes(single); ok {
@@ -1034,6 +1235,9 @@ func oracleC08(r *report, g *G, n int, single string) {
 	}
 	for i := 0; i < n; i++ {
 		checkFrame(g.seqFrame())
+	}
+	for i := 0; i < 2+n/100; i++ {
+		checkFrame(g.bigPublish())
 	}
 	r.sample(map[string]string{"frame": "3005000174aabb", "cut": "every offset 0..6", "faults": "EOF and injected error, with the last bytes or in the next call"})
 }
